@@ -176,6 +176,7 @@ PROPS.update({
 # harness sets are decided under std (+chain-error, io::Write blanket Output), no-std + chain-error, and with every optional
 # integration switched off.
 _C20_CORE = ["c03q_duration", "c03q_bool", "c03q_optionbool", "c03q_nz_u32", "c03q_opt_opt_bool", "c03q_vec_u8_3", "c03q_vec_opt_2", "c03q_string_3", "c03q_vec_u8_max", "c03q_string_63", "c03q_res_u8_u16", "c03q_opt_u32",
+             "c03q_vec_unit_3", "c01q_vec_unit_3", "c03q_unit", "c03q_phantom", "c03q_vec_optbool_2", "c01q_count_boundary_vec_u8", "c01q_count_u32_max_prefix",
              "c01q_u32", "c01q_f64", "c01q_compact_u64", "c01q_opt_u32", "c01q_vec_u8_3", "c01q_vec_opt_3", "c01q_string_3", "c01q_duration", "c04q_enc_u32", "c04q_dec_u32"]
 _C20_MORE = ["c01q_i64", "c01q_res_opt", "c01q_tup3", "c01q_arr_opt_3", "c01q_vec_u32_2", "c01q_vec_vec_2", "c01q_deque_u32_2", "c01q_list_u8_3", "c01q_box_vec", "c01q_nz_u32", "c01q_borrowed_forms",
              "c03q_u16", "c03q_res_opt_compact", "c03q_tup3", "c03q_arr_opt_3", "c03q_box_u32", "c03q_vec_u32_2", "c03q_list_u8_2", "c04q_enc_u128", "c04q_width_u16_u32"]
@@ -190,6 +191,10 @@ PROPS["C20"] = dict(
         # decode outcomes under limits and through the shared byte buffer are part of "the accept/reject decision": same harnesses in the no-std configurations
         dict(features=["c08", "c12"], cfg="chain", stubbing=True, filters={"quick": ["c08q_bytes", "c12q_ml_box_u64", "c12q_ml_vec_u32_2", "c12q_ml_arc_u16"], "thorough": ["c08q_bytes", "c12q_ml_box", "c12q_ml_vec_u32_2", "c12q_ml_rc_arr", "c12q_ml_arc_u16", "c12q_tracker"]}),
         dict(features=["c08", "c12"], cfg="nostd", stubbing=True, filters={"quick": ["c08q_bytes", "c12q_ml_box_u64", "c12q_ml_arc_u16"], "thorough": ["c08q_bytes", "c12q_ml_box", "c12q_ml_rc_arr", "c12q_ml_arc_u16"]}),
+        # EncodeAppend carries configuration-specific code paths of its own: the same harnesses under every configuration
+        dict(features=["c15"], cfg="std", filters={"quick": ["c15q_zst_every_count_vec", "c15q_pay_vec_1_1", "c15q_pay_u8_2_2"], "thorough": ["c15q_"]}),
+        dict(features=["c15"], cfg="chain", filters={"quick": ["c15q_zst_every_count_vec", "c15q_pay_vec_1_1"], "thorough": ["c15q_"]}),
+        dict(features=["c15"], cfg="nostd", noext=True, filters={"quick": ["c15q_zst_every_count_vec", "c15q_pay_vec_1_1", "c15q_pay_u8_2_2"], "thorough": ["c15q_"]}),
         dict(features=["c20", "big"], cfg="nostd", stubbing=True, jobs=2, mem_gb=28, harness_timeout=1500, timeout=7200, filters={"quick": [], "thorough": ["c20h_"]}),
         dict(features=["c20", "big"], cfg="std", stubbing=True, jobs=2, mem_gb=28, harness_timeout=1500, timeout=7200, filters={"quick": [], "thorough": ["c20h_"]}),
     ],
@@ -202,6 +207,7 @@ PROPS["C20"]["pre"] = GEN_BOTH
 PROPS["C10"]["pre"] = GEN_DERIVE
 for _k in ("C08", "C11", "C12", "C14", "C18", "C19"):
     PROPS[_k]["pre"] = GEN_BOTH
+PROPS["C11"]["runs"].append(dict(features=["c11"], cfg="nostd", stubbing=True, filters={"quick": ["c11s_"], "thorough": ["c11s_"]}))
 for _k in ("C14", "C18"):
     PROPS[_k]["runs"].append(dict(features=[_k.lower()], cfg="std", jobs=8, filters={"quick": [_k.lower() + "q_ioreader"], "thorough": [_k.lower() + "q_ioreader", _k.lower() + "t_ioreader"]}))
 
